@@ -19,7 +19,17 @@ fn run_repl() {
         buffer.clear();
         print!(">>> ");
         io::stdout().flush().unwrap();
-        io::stdin().read_line(&mut buffer).unwrap();
+
+        // Nothing more to read (the end of a pipe or file on standard input, or ctrl-d): leave the prompt
+        // instead of evaluating empty lines forever
+        match io::stdin().read_line(&mut buffer) {
+            Ok(0) => break,
+            Ok(_) => (),
+            Err(e) => {
+                eprintln!("{e}");
+                break;
+            }
+        }
 
         // A line that does not parse or compile is reported like a line that fails while it runs
         let result = parse(&buffer)
